@@ -91,7 +91,8 @@ def nt_long(tr):
 reg("C01", exc_ops=WRITE_OPS, nontrivial=nt_pages,
     weights={"AddPage": 25, "AddPages": 14, "AddLinks": 14, "IndexBatchCrawl": 12},
     title="Page set fidelity")
-reg("C02", exc_ops=ALL_OPS, nontrivial=nt_pages, hook="lookup",
+reg("C02", exc_ops=ALL_OPS, nontrivial=nt_pages, hook="lookup", mc=[("core", 4, 5), ("bst", 5, 6)],
+    gen_mc=("core", "bst"),
     profile={"long": 0.6, "raw": 0.5, "prefixy": 0.5}, title="Findability / TST invariants")
 reg("C03", exc_ops={"AddLinks", "IndexBatchCrawl"}, nontrivial=nt_links, hook="links",
     mc=[("core", 4, 5), ("links", 4, 6)], gen_mc="links",
@@ -170,7 +171,7 @@ def token_source(pid, cfg, tier, seed, work, first_id, hook=None):
 
 
 reg("C09", exc_ops=set(), nontrivial=nt_pages, hook="pagination", obs_fail=False,
-    mc=[("core", 4, 5), ("pag", None, None), ("token", None, None)],
+    mc=[("core", 4, 5), ("bst", 5, 6), ("pag", None, None), ("token", None, None)], gen_mc=("core", "bst"),
     extra_sources=(tlcgen.tlc_traces, tlcgen.repo_test_traces, token_source),
     weights={"Paginate": 40, "AddPage": 30, "AddPages": 8, "CreateWe": 8, "AddPrefix": 8, "AddLinks": 4,
              "IndexBatchCrawl": 4, "Clear": 0, "DeleteWe": 2, "RemovePrefix": 2, "MovePrefix": 2},
